@@ -611,6 +611,26 @@ def run_popcount(shape, bitdata, signed=False):
     return coq, None
 
 
+def run_popcount_big(shape, seed, signed=False):
+    """arrays far larger than the Coq literals the per-case stream writes (64 KiB and beyond, several batches of any internal
+    chunking): bytes from a seeded generator, oracle = int.bit_count of the whole byte string"""
+    import kyupy, random
+    n = 1
+    for d in shape:
+        n *= d
+    data = random.Random(seed).randbytes(n)
+    a = np.frombuffer(data, dtype=np.uint8).reshape(shape)
+    if signed:
+        a = a.view(np.int8)
+    got, err = call(kyupy.popcount, a)
+    if err is not None:
+        return [], f'popcount raises {err} on shape {shape}'
+    want = int.from_bytes(data, 'little').bit_count()
+    if int(got) != want:
+        return [], f'popcount = {int(got)} for {n} {"int8" if signed else "uint8"} bytes of shape {shape} (seed {seed}), number of one bits is {want}'
+    return [], None
+
+
 # ---- the eight values and the whole 1-character domain (finite part, run completely every time) ----------------
 def table_oracle():
     from kyupy import logic as lg
